@@ -781,3 +781,25 @@ MUTATIONS += [
     # BlobCopier::finalize ignores its packer's status
     dict(id="C03-copier-finalize-default-stats", prop="C03", file=PKR13, old="    pub fn finalize(self) -> RusticResult<PackerStats> {\n        self.packer.finalize()\n    }", new="    pub fn finalize(self) -> RusticResult<PackerStats> {\n        match self.packer.finalize() {\n            Ok(stats) => Ok(stats),\n            Err(_) => Ok(PackerStats::default()),\n        }\n    }"),
 ]
+
+LB13 = "crates/backend/src/local.rs"
+MUTATIONS += [
+    # the directory backend writes directly under the final name (an interrupted or failed write leaves a listed partial file)
+    dict(id="C20-local-write-without-tmp", prop="C20", file=LB13, old="        match write_local_file(\n            &filename_tmp,", new="        match write_local_file(\n            &filename,"),
+    # a failed write publishes the partial temporary file anyway
+    dict(id="C20-local-write-renames-after-error", prop="C20", file=LB13, old="                _ = fs::remove_file(&filename_tmp);\n                return Err(err);", new="                _ = fs::rename(&filename_tmp, &filename);\n                return Err(err);"),
+    # ranged reads ignore the offset
+    dict(id="C20-local-read-partial-no-seek", prop="C20", file=LB13, old="        _ = file.seek(SeekFrom::Start(offset.into())).map_err(|err| {", new="        _ = file.seek(SeekFrom::Start(0)).map_err(|err| {"),
+    # remove reports success although the file could not be removed
+    dict(id="C20-local-remove-ignores-error", prop="C20", file=LB13, old="        fs::remove_file(&filename).map_err(|err|\n            RusticError::with_source(\n                ErrorKind::Backend,\n                \"Failed to remove the file `{path}`. Was the file already removed or is it in use? Please check the file and remove it manually.\",\n                err\n            )\n            .attach_context(\"path\", filename.to_string_lossy())\n        )?;", new="        _ = fs::remove_file(&filename);"),
+    # full reads of index files look into the pack directory
+    dict(id="C20-local-read-full-wrong-type", prop="C20", file=LB13, old="        Ok(fs::read(self.path(tpe, id))", new="        Ok(fs::read(self.path(FileType::Pack, id))"),
+]
+HARMLESS += [
+    dict(id="H-C20-local-write-name-order", prop="C20", file=LB13, old="        let filename = self.path(tpe, id);\n\n        let parent = self.base_path(tpe, id);", new="        let parent = self.base_path(tpe, id);\n\n        let filename = self.path(tpe, id);"),
+]
+
+HARMLESS += [
+    # add_file: early `continue` for a matched blob, the position still advanced
+    dict(id="H-C14-addfile-continue", prop="C14", file=RS13, old="            if matches {\n                self.matched_size += length;\n            } else {\n                self.restore_size += length;\n                has_unmatched = true;\n            }\n\n            file_pos += length;", new="            if matches {\n                self.matched_size += length;\n                file_pos += length;\n                continue;\n            }\n            self.restore_size += length;\n            has_unmatched = true;\n            file_pos += length;"),
+]
